@@ -21,4 +21,4 @@ def run(tier: str, seed: int):
         serial = list(F.fam_faults(1, 4, max_faults=2, kinds=('raise',))) + list(F.fam_limits(1, 4, batch=1))
         rule = 'n<=5; fault sets <=2; limits {None,1,2,3}; stutter'
         e3c = list(F.fam_e3(list(F.fam_faults(1, 3, max_faults=2)) + list(F.fam_limits(1, 3, tnames=('TA', 'TB', 'TC'), faults=True)), workers=(1, 2, None), die_exit0=(False, True))) + list(F.fam_e3(F.fam_faults(4, 4, max_faults=1, reqs='sinks'), workers=(1, 2), liveness=False))
-    return run_e2_property('C11', tier, seed, cfgs, serial_configs=serial, e3_configs=e3c, rule=rule, assumptions=ASSUME)
+    return run_e2_property('C11', tier, seed, cfgs, serial_configs=serial, e3_configs=e3c, real_cases=list(F.fam_real(F.real_bases('faults') + F.real_bases('limits'), workers=(1, 2))), rule=rule, assumptions=ASSUME)
